@@ -168,7 +168,7 @@ def opsSolver (op : String) (ins outs : List String) : Option String :=
     let vars ← parseNatList vars
     let zs ← (pts.splitOn "|").mapM parsePoint
     if !(Box.subset e root) then pure "FAIL solution-box-not-inside-the-initial-box" else
-    if !(Cover.innerOk ineqs e) && (innerRefuted ineqs e).isSome then
+    if !(Cover.innerOk ineqs e) && !(Verdict.innerOkX ineqs e) && (innerRefuted ineqs e).isSome then
       pure "FAIL solution-box-contains-a-point-violating-an-inequality" else
     if zs.any (fun q => Verdict.refutedOutside eqs e u vars q) then
       pure "FAIL known-zero-in-the-unicity-box-outside-the-existence-box" else
@@ -218,6 +218,7 @@ def opsSolver (op : String) (ins outs : List String) : Option String :=
     -- certified by the model's interval evaluation; refuted by an exactly evaluated infeasible point of the box;
     -- otherwise undecided (the library may evaluate a simplified expression with fewer roundings than the model)
     if Cover.innerOk (List.zip ds ss) b then pure "ok inner-certified" else
+    if Verdict.innerOkX (List.zip ds ss) b then pure "ok inner-certified exact-arithmetic" else
     match innerRefuted (List.zip ds ss) b with
     | some p => pure s!"FAIL inner-box-contains-an-infeasible-point pt={p}"
     | none => pure "ok inner-uncertified"
